@@ -46,4 +46,32 @@ pub fn jobs(prop: &str, tier: Tier) -> Option<(&'static str, Vec<Job>)> {
     })
 }
 
-pub fn configure(_prop: &str, _rep: &mut Report) {}
+/// vacuity guards: a run in which these never happened explored nothing relevant and is a machinery error
+pub fn configure(prop: &str, rep: &mut Report) {
+    let req: &[(&str, &str)] = match prop {
+        "C01" => &[("c01-pu-full", "Swap:ok"), ("c01-pu-full", "Route:ok"), ("c01-pu-full", "Provide:ok"), ("c01-pu-full", "Withdraw:ok"), ("c01-pu-full", "CreatePool:ok"), ("c01-pu-full", "Provide:refused")],
+        "C02" => &[("c02-pu-full", "c02_provide_edges"), ("c02-pu-full", "c02_withdraw_edges"), ("c02-grid", "Provide:ok"), ("c02-grid", "Withdraw:ok")],
+        "C03" => &[("c03-pu-full", "c03_swap_edges_judged"), ("c03-swap-chains", "c03_swap_edges_judged")],
+        "C04" => &[("c04-pu-full", "c04_swap_edges"), ("c04-pu-full", "c04_route_edges")],
+        "C05" => &[("c05-fu-full", "c05_drains"), ("c05-fu-full", "WithdrawPos:ok"), ("c05-fu-full", "Claim:ok"), ("c05-fu-full", "CloseFarm:ok")],
+        "C06" => &[("c06-fu-reward", "c06_claims_that_paid"), ("c06-fu-reward", "c06_hypothetical_claims"), ("c06-fu-core", "c06_claims_that_paid")],
+        "C07" => &[("c07-fu-reward", "Claim:ok"), ("c07-fu-diamond", "c07_diamonds")],
+        "C08" => &[("c08-fu-positions", "WithdrawPos:ok"), ("c08-fu-positions", "ClosePos:ok"), ("c08-fu-positions", "WithdrawPos:refused"), ("c08-fu-full", "ProvideLock:ok")],
+        "C09" => &[("c09-penalty-grid", "EmergencyWithdraw:ok")],
+        "C10" => &[("c10-fu-positions", "ClosePos:ok"), ("c10-weight-curve-grid", "c10_weight_evaluations")],
+        "C11" => &[("c11-fu-farms-cfg0", "CreateFarm:ok"), ("c11-fu-farms-cfg0", "CloseFarm:ok"), ("c11-fu-farms-cfg0", "ExpandFarm:ok"), ("c11-fu-farms-cfg1", "CreateFarm:ok"), ("c11-fu-farms-cfg2", "CreateFarm:ok"), ("c11-fu-farms-cfg3", "CreateFarm:ok")],
+        "C12" => &[("c12-pu-full", "c12_swap_edges"), ("c12-pu-full", "c12_route_edges"), ("c12-reverse-grid", "ReverseSimulation:ok")],
+        "C13" => &[("c13-protection-grid", "c13_cp_must_accept"), ("c13-protection-grid", "c13_cp_must_reject"), ("c13-protection-grid", "c13_dep_must_accept"), ("c13-protection-grid", "c13_dep_must_reject"), ("c13-protection-grid", "c13_ss_swaps")],
+        "C14" => &[("c14-pu-single", "c14_twin_compared"), ("c14-pu-single", "c14_both_refused"), ("c14-pu-single", "c20_injected_runs")],
+        "C15" => &[("c15-ownership-pool-manager", "c15_matrix_cells"), ("c15-ownership-farm-manager", "c15_matrix_cells"), ("c15-ownership-epoch-manager", "c15_matrix_cells"), ("c15-ownership-fee-collector", "Own:ok")],
+        "C16" => &[("c16-creation-grid", "c16_must_accept"), ("c16-creation-grid", "c16_must_reject")],
+        "C17" => &[("c17-pu-switches", "c17_must_block"), ("c17-pu-switches", "c17_must_equal_twin")],
+        "C18" => &[("c18-grid", "CurrentEpoch:ok"), ("c18-grid", "CurrentEpoch:refused"), ("c18-grid", "Epoch:refused"), ("c18-grid", "Instantiate:rejected")],
+        "C19" => &[("c19-stableswap-grid", "c19_quotes"), ("c19-stableswap-grid", "c19_mint_d_checks")],
+        "C20" => &[("c20-pu-full", "c20_injected_runs"), ("c20-fu-full", "c20_tolerated_failures"), ("c20-fu-farms", "c20_tolerated_failures")],
+        _ => &[],
+    };
+    for (job, c) in req {
+        rep.require_counter(job, c);
+    }
+}
